@@ -14,6 +14,7 @@ import (
 	"context"
 	"crypto"
 	"encoding/json"
+	"errors"
 	"math/rand"
 	"os"
 	"path/filepath"
@@ -126,7 +127,18 @@ func TestVerifC17AuthzV1(t *testing.T) {
 	orgCredential := vc.VerifiableCredential{}
 	_ = json.Unmarshal([]byte(jsonld.TestOrganizationCredential), &orgCredential)
 	tctx.nameResolver.EXPECT().Search(gomock.Any(), gomock.Any(), false, gomock.Any()).Return([]vc.VerifiableCredential{orgCredential}, nil).AnyTimes()
-	tctx.keyStore.EXPECT().Exists(gomock.Any(), gomock.Any()).DoAndReturn(func(_ context.Context, kid string) (bool, error) { return ownKeys[kid], nil }).AnyTimes()
+	// the node's key store; `storeFault` makes the lookup fail (outage / reference lookup error): (false, error), or — as some
+	// back-ends do — (true, error)
+	storeFault := ""
+	tctx.keyStore.EXPECT().Exists(gomock.Any(), gomock.Any()).DoAndReturn(func(_ context.Context, kid string) (bool, error) {
+		switch storeFault {
+		case "false+error":
+			return false, errors.New("key store unavailable")
+		case "true+error":
+			return true, errors.New("key store unavailable")
+		}
+		return ownKeys[kid], nil
+	}).AnyTimes()
 	srv := tctx.oauthService
 	now := time.Now()
 
@@ -190,7 +202,18 @@ func TestVerifC17AuthzV1(t *testing.T) {
 					emit(vAzOp{Op: "consume", C: "authzv1", Name: v.Name, Class: v.Class, HAlg: v.HAlg, By: v.By, Issuer: claimedIss, Info: info, V: verd}, res)
 				}
 				// ---- introspection of an access token: only tokens signed by one of THIS node's keys
-				if len(only) == 0 || only["introspect|"+v.Name] {
+				for _, fault := range []string{"", "false+error", "true+error"} {
+					name := v.Name
+					if fault != "" { // faults only for the interesting shapes: properly signed tokens, own and foreign
+						if !(v.Class == "valid" || v.Class == "other-party" || v.Class == "forged" || strings.HasPrefix(v.Class, "lookalike-did-forged")) {
+							continue
+						}
+						name += "@store-" + fault
+					}
+					if len(only) > 0 && !only["introspect|"+name] {
+						continue
+					}
+					storeFault = fault
 					res := "reject"
 					func() {
 						defer func() {
@@ -202,7 +225,15 @@ func TestVerifC17AuthzV1(t *testing.T) {
 							res = "accept"
 						}
 					}()
-					emit(vAzOp{Op: "consume", C: "introspect", Name: v.Name, Class: v.Class, HAlg: v.HAlg, By: v.By, Issuer: claimedIss, Info: info, V: verd}, res)
+					storeFault = ""
+					vv := map[string]interface{}{"storefault": fault != ""}
+					for k, x := range verd {
+						vv[k] = x
+					}
+					if fault != "" { // whether the key is this node's cannot be established
+						vv["ownkey"] = false
+					}
+					emit(vAzOp{Op: "consume", C: "introspect", Name: name, Class: v.Class, HAlg: v.HAlg, By: v.By, Issuer: claimedIss, Info: info, V: vv}, res)
 				}
 			}
 		}
